@@ -131,12 +131,25 @@ def plookup (k : String) : List (String × PVal) → Option PVal
 /-- `c.payloadType in rtp.DYNAMIC_PAYLOAD_TYPES` -/
 def isDynamicPt (pt : Nat) : Bool := Gen.NEG_DYNAMIC_PT_LO ≤ pt && pt < Gen.NEG_DYNAMIC_PT_HI
 
+/-- decimal digits to a number (`none`: empty or a non-digit) -/
+def parseDec (cs : List Char) : Option Nat :=
+  if cs.isEmpty then none
+  else cs.foldl (fun acc c => acc.bind (fun n => if c.isDigit then some (n * 10 + (c.toNat - '0'.toNat)) else none)) (some 0)
+
+/-- `int(s)` for plain decimal strings with an optional sign (what fmtp values look like; Python additionally accepts
+surrounding white space and `_` separators) -/
+def parseInt (s : String) : Option Int :=
+  match s.toList with
+  | '-' :: r => (parseDec r).map (fun n => -(n : Int))
+  | '+' :: r => (parseDec r).map (fun n => (n : Int))
+  | cs => (parseDec cs).map (fun n => (n : Int))
+
 /-- `int(c.parameters.get("packetization-mode", "0"))`; `none` = `ValueError`. -/
 def packetization (c : Codec) : Option Int :=
   match plookup "packetization-mode" c.params with
   | none => some 0
   | some (.inl i) => some i
-  | some (.inr s) => s.toInt?
+  | some (.inr s) => parseInt s
 
 /-- `sdp.parse_h264_profile_level_id(str(...get("profile-level-id", "42E01F")))[0]` through the regenerated
 graph; `none` = `ValueError` (also for strings outside the graph's domain: see ASSUMPTIONS). -/
